@@ -213,6 +213,9 @@ def bases():
     B["pathmix"] = [n(J), n("URL /a/{id}/{x}/{y}", n("Path", body='{\n  "id": 1\n}'),
                             n("GET", n("Path", body='{\n  "x": 1\n}'), n("200 any"), paren=True), n("POST", n("200 any")))]
     B["leadparam"] = [n(J), n("GET /{t}/users", n("200 any")), n("URL /{t}/groups", n("GET", n("200 any"))), n("PUT /{t}", n("200 any"))]
+    B["rpcparam"] = [n(J), n("URL /api/{tenant}/rpc", n("Protocol json-rpc-2.0"), n("Method m", n("Params", body="{}"))),
+                     n("URL /shops/{shop}"), n("GET /z", n("200 any"))]
+    B["owntags"] = [n(J), n("TAG @g"), n("TAG @h"), n("URL /u", n("Tags @g"), n("GET", n("Tags @h"), n("200 any")), n("DELETE", n("Tags @h"), n("204 any")))]
     B["urltags"] = [n(J), n("TAG @g"), n("URL /u", n("Tags @g"), n("GET", n("200 any")), n("DELETE", n("Tags @g"), n("204 empty")))]
     B["all"] = [n(J), n("INFO", n('Title "T"'), n("Version 1")), n("SERVER @s", n('BaseUrl "http://x"')), n("TAG @g"),
                 n("TYPE @t", body="{}"), n("ENUM @e", body="[1]"), n("MACRO @m", n("404 any"), paren=True),
